@@ -26,4 +26,14 @@ CHECKS = {
         "note": "Sampled sequences (not exhaustive). Sequences stop at the first rejection; liquidation is not triggered here. "
         "Wallet equality is up to the Decimal context precision (35 digits).",
     },
+    "C04": {
+        "technique": "invariant at quiescent points: deep state projection compared around every raising call, rejection sites taken from tracebacks",
+        "text": "Frozen-market scenes of every market type (uniswap, aave, uniswap+aave, squeeth with its pool, deribit incl. closed bars, "
+        "GMX v1/v2, broker wallet ops) are driven with random operation sequences whose arguments are chosen to be rejected for every "
+        "cause (each token short, unsafe HF / collateral ratio, dust, flag mismatch, zero/negative/oversized amounts, unknown keys, closed "
+        "market, thin book, price not in book); around each raising call the projection of wallet, positions, visible book and action log "
+        "must be identical (multi-step helpers: identical to a transaction boundary). Evidence lists the rejection sites reached.",
+        "note": "State = what public accessors show (vmon/drive.py project); caches and has_update flags are outside it. Sampled states and "
+        "arguments; a rejection cause whose site never appears in the evidence was not exercised.",
+    },
 }
